@@ -626,6 +626,8 @@ impl ObjectReceiver {
             return;
         }
 
+        // Replay the packets in their order of arrival, the one carrying the close-object flag comes last
+        self.cache.reverse();
         while let Some(item) = self.cache.pop() {
             let pkt = item.to_pkt();
             if self.push_to_block(&pkt, now).is_err() {
